@@ -757,7 +757,11 @@ def formatting_rules(ctx):
                     scanned = [v for v in vars_ if any(isinstance(st, ast.Assign) and norm(st.targets[0]) == v and
                                                        "activeFormattingElements" in norm(st.value) for st in ast.walk(node))]
                     test_names = {x.id for x in ast.walk(node.test) if isinstance(x, ast.Name)}
-                    scanned = [v for v in scanned if v in test_names]
+                    popped = [v for v in scanned if any(isinstance(st, ast.Assign) and norm(st.targets[0]) == v and
+                                                        norm(st.value).endswith("activeFormattingElements.pop()") for st in ast.walk(node))]
+                    # a loop that pops entries off the list is a backward scan whatever its test says; an indexed walk is
+                    # one only if the entry it reads takes part in the loop test
+                    scanned = [v for v in scanned if v in test_names or v in popped]
                     if not scanned:
                         continue
                     n_scans += 1
@@ -1202,7 +1206,7 @@ def run(ctx):
     r.rule("C01.1", "no ambient source is read on the parse path; no set is iterated with an order-sensitive effect", floor=20)
     r.rule("C01.2", "dispatcher tables: every handler resolves, default present, no duplicate names, phase keys exist", floor=150)
     r.rule("C01.3", "pairing rules P1 (text mode), P3 (formatting lists), P4 (markers), P5 (foster bracket), P8 (pointers), "
-                    "P9 (scope variants), P10 (implied-end exclusions)", floor=45)
+                    "P9 (scope variants), P10 (implied-end exclusions)", floor=30)
     r.rule("C01.4", "fragment context selects the tokenizer state its start-tag handler selects, under the same condition", floor=10)
     r.rule("C02.7", "element -> tokenizer state map of the start-tag handlers equals the standard's", floor=10)
     r.rule("C01.6", "the start tags that clear the frameset-ok flag in body are the standard's list; text clears it, white space does not", floor=20)
